@@ -650,8 +650,9 @@ fn rename_all_to_case(original: String, case: &Option<String>) -> String {
     match case {
         None => original,
         Some(value) => match value.as_str() {
-            "lowercase" => original.to_lowercase(),
-            "UPPERCASE" => original.to_uppercase(),
+            // serde maps case in ASCII only (`É` stays `É` under "lowercase")
+            "lowercase" => original.to_ascii_lowercase(),
+            "UPPERCASE" => original.to_ascii_uppercase(),
             "PascalCase" => original.to_pascal_case(),
             "camelCase" => original.to_camel_case(),
             "snake_case" => original.to_snake_case(),
